@@ -294,6 +294,44 @@ def err_kind(e):
   return "other:" + type(e).__name__
 
 
+def _apply(Q, K, tf, q, attrs, op, ch_last):
+  """a non-call operation on the live object `q` (and on the harness' record of its attributes)"""
+  k = op["k"]
+  if k == "set_alpha":
+    attrs["alpha"] = op["v"]
+    q.alpha = arg_obj(tf, op["v"])
+  elif k == "set_threshold":
+    attrs["threshold"] = op["v"]
+    q.threshold = arg_obj(tf, op["v"])
+  elif k == "set_unrolls":
+    attrs["unrolls"] = op["v"]
+    q.number_of_unrolls = op["v"]
+  elif k == "set_use01":
+    attrs["use01"] = op["v"]
+    q.use_01 = op["v"]
+  elif k == "set_axis":
+    attrs["sa"], attrs["eps"] = op["sa"], op["eps"]
+    q.scale_axis, q.elements_per_scale = op["sa"], op["eps"]
+  elif k == "set_bounds":
+    attrs["mn"], attrs["mx"] = op["mn"], op["mx"]
+    q.min_po2_exponent, q.max_po2_exponent = exp_obj(op["mn"]), exp_obj(op["mx"])
+  elif k == "set_trainable":
+    was_none = attrs["alpha"] is None
+    if op.get("via") == "layer":
+      from qkeras import QDense     # pylint: disable=import-outside-toplevel
+      QDense(3, kernel_quantizer=q)  # a layer adopts the used object: calls _set_trainable_parameter
+    else:
+      q._set_trainable_parameter()   # pylint: disable=protected-access
+    if was_none:
+      attrs["alpha"] = "auto_po2"
+  elif k == "set_format":
+    ch_last = op["ch_last"]
+    K.set_image_data_format("channels_last" if ch_last else "channels_first")
+  else:
+    raise ValueError(k)
+  return ch_last
+
+
 def execute(Q, K, tf, sc):
   """run the scenario on the real code; returns one record per call and the final `q.scale` state"""
   cls = sc["cls"]
@@ -311,8 +349,18 @@ def execute(Q, K, tf, sc):
       # a second object from the IDENTICAL text: must not share state with the first
       alias = build(Q, tf, cls, attrs, sc["route"], sc.get("extra", {}))
     last_scale = ("never", None)
+    op_err = None
     for op in sc["ops"]:
       k = op["k"]
+      if k != "call":
+        # attribute changes / _set_trainable_parameter / format switches must not raise
+        try:
+          ch_last = _apply(Q, K, tf, q, attrs, op, ch_last)
+        except Exception as e:  # pylint: disable=broad-except
+          op_err = dict(op=k, error=(type(e).__name__ + ": " + str(e))[:300], kind=err_kind(e),
+                        alpha_form=arg_label(attrs["alpha"]))
+          break
+        continue
       if k == "call":
         x = op["x"]
         ca = canon_attrs(cls, attrs)
@@ -345,37 +393,6 @@ def execute(Q, K, tf, sc):
         except Exception as e:  # pylint: disable=broad-except
           rec["twin_err"] = err_kind(e)
         recs.append(rec)
-      elif k == "set_alpha":
-        attrs["alpha"] = op["v"]
-        q.alpha = arg_obj(tf, op["v"])
-      elif k == "set_threshold":
-        attrs["threshold"] = op["v"]
-        q.threshold = arg_obj(tf, op["v"])
-      elif k == "set_unrolls":
-        attrs["unrolls"] = op["v"]
-        q.number_of_unrolls = op["v"]
-      elif k == "set_use01":
-        attrs["use01"] = op["v"]
-        q.use_01 = op["v"]
-      elif k == "set_axis":
-        attrs["sa"], attrs["eps"] = op["sa"], op["eps"]
-        q.scale_axis, q.elements_per_scale = op["sa"], op["eps"]
-      elif k == "set_bounds":
-        attrs["mn"], attrs["mx"] = op["mn"], op["mx"]
-        q.min_po2_exponent, q.max_po2_exponent = exp_obj(op["mn"]), exp_obj(op["mx"])
-      elif k == "set_trainable":
-        if attrs["alpha"] is None:
-          attrs["alpha"] = "auto_po2"
-        if op.get("via") == "layer":
-          from qkeras import QDense     # pylint: disable=import-outside-toplevel
-          QDense(3, kernel_quantizer=q)  # a layer adopts the used object: calls _set_trainable_parameter
-        else:
-          q._set_trainable_parameter()   # pylint: disable=protected-access
-      elif k == "set_format":
-        ch_last = op["ch_last"]
-        K.set_image_data_format("channels_last" if ch_last else "channels_first")
-      else:
-        raise ValueError(k)
     final = None
     if recs:
       shape = recs[-1]["x"].shape
@@ -383,7 +400,7 @@ def execute(Q, K, tf, sc):
       if ok:
         shape = ok[-1]["x"].shape
       final = _scale_of(q, shape) if q.scale is not None else (None, "none")
-    return recs, final, last_scale
+    return recs, final, last_scale, op_err
   finally:
     K.set_image_data_format("channels_last")
     if had_phase:
@@ -405,8 +422,11 @@ def line_of(sc, recs, eps32):
   for op in sc["ops"]:
     k = op["k"]
     if k == "call":
-      r = next(it)
-      ops.append(dict(k="call", shape=list(r["x"].shape), x=A.enc(A.fr(r["x"])), xste=A.enc(A.fr(r["xste"]))))
+      r = next(it, None)
+      if r is None:
+        break            # an operation raised on the real object: the history ends there
+      ops.append(dict(k="call", shape=list(r["x"].shape), x=A.enc(A.fr(r["x"])), xste=A.enc(A.fr(r["xste"])),
+                      np=(r["xin"] == "numpy")))
     elif k in ("set_alpha", "set_threshold"):
       ops.append(dict(k=k, v=arg_json(op["v"])))
     elif k in ("set_unrolls", "set_use01"):
@@ -582,6 +602,23 @@ def gen(rng, tier):
                         [call(rng, A.exact_tensor(rng, [4, 4], "plain"))], rng))
     scs.append(scenario("exp-forms", "binary", bin_attrs(num("pyint", 2), False, None, None, dict(f="npint", e=-3),
                                                          None), [call(rng, A.exact_tensor(rng, [4, 4], "plain"))], rng))
+    # the input as a numpy array / variable on the elements_per_scale path
+    for xin in ("numpy", "variable", "tensor"):
+      x = A.exact_tensor(rng, [4, 8], "plain")
+      scs.append(scenario("input-forms", "binary", bin_attrs("auto", False, 1, 4), [call(rng, x, xin)], rng))
+      scs.append(scenario("input-forms", "binary", bin_attrs("auto_po2", True, [0, 1], [2, 4]), [call(rng, x, xin)], rng))
+      scs.append(scenario("input-forms", "binary", bin_attrs(num("pyint", 2), False, 1, 4), [call(rng, x, xin)], rng))
+    # negative axes (numpy convention: counted from the end)
+    for a in ("auto", "auto_po2"):
+      for sa, sh in (([-1], [2, 8]), ([0, -1], [4, 8]), ([-1], [2, 4, 8]), ([-2, 2], [2, 4, 4]), (-1, [4, 8]), (-2, [2, 4, 8])):
+        x = A.exact_tensor(rng, sh, "plain")
+        scs.append(scenario("axis-forms", "binary", bin_attrs(a, bool(rng.random() < 0.3), sa), [call(rng, x)], rng,
+                            ch_last=True))
+    # a negative int is not even looked at off the data-dependent path / for rank <= 1
+    scs.append(scenario("axis-forms", "binary", bin_attrs(num("pyint", 2), False, -1),
+                        [call(rng, A.exact_tensor(rng, [4, 8], "plain"))], rng))
+    scs.append(scenario("axis-forms", "binary", bin_attrs("auto", False, -1),
+                        [call(rng, A.exact_tensor(rng, [8], "plain"))], rng))
     for uf in ("int", "np_bool"):
       for u in (False, True):
         scs.append(scenario("opt-forms", "binary", bin_attrs(scalar_alpha(rng, "pyint"), u),
@@ -591,6 +628,14 @@ def gen(rng, tier):
     for cls in ("ternary", "stochastic_ternary"):
       scs.append(scenario("opt-forms", cls, ter_attrs("auto", None, 2),
                           [call(rng, A.exact_tensor(rng, [4, 8], "plain"))], rng, extra=dict(unrolls_form="npint64")))
+    # ---- process-level state: the data format is read at CALL time (construct -> switch -> call, both orders)
+    for cls in CLASSES:
+      for a in ("auto", "auto_po2"):
+        for first in (True, False):
+          sh = [[2, 8], [4, 2, 8], [2, 4, 1, 8], [8, 2]][int(rng.integers(0, 4))]
+          x = A.exact_tensor(rng, sh, "plain")
+          scs.append(scenario("fmt-order", cls, attrs_for(cls, a, rng),
+                              [dict(k="set_format", ch_last=not first), call(rng, x)], rng, ch_last=first))
     # ---- F. histories on one object
     n_hist = 14 if tier == "quick" else 40
     for cls in CLASSES:
@@ -642,7 +687,10 @@ def history(rng, cls):
         ops.append(dict(k="set_alpha", v=na))
         cur_alpha = na
       elif t < 0.5:
-        ops.append(dict(k="set_trainable", via="layer" if rng.random() < 0.3 else "direct"))
+        # handing the object to a layer also calls its max()/min() reporters (C01's business: they raise for
+        # ndarray / integer-tensor alpha), so the layer route is only used with None / string / python-number alpha
+        plain = (not is_spec(cur_alpha)) or cur_alpha["f"] in ("pyfloat", "pyint", "npfloat32", "npfloat64", "npint64")
+        ops.append(dict(k="set_trainable", via="layer" if (plain and rng.random() < 0.4) else "direct"))
         if cur_alpha is None:
           cur_alpha = "auto_po2"
           if base == "ternary" and cur_thr is not None:
@@ -714,9 +762,20 @@ def label(c):
   return d
 
 
+def same_error(model_kind, impl_kind):
+  """the model has two error kinds: "assert" (AssertionError) and "value-error" (any other exception)"""
+  return model_kind == impl_kind or (model_kind == "value-error" and impl_kind != "assert")
+
+
 def why_raises(sc, rec):
   """an independent reading of why a documented-valid configuration may raise"""
   a = rec["attrs"]
+  if BASE[sc["cls"]] == "binary" and isinstance(rec["ca"]["alpha"], str) and a["eps"] is not None \
+      and rec["xin"] == "numpy" and len(rec["x"].shape) > 1:
+    return "numpy-input-elements-per-scale"
+  if BASE[sc["cls"]] == "binary" and isinstance(rec["ca"]["alpha"], str) and isinstance(a["sa"], int) and a["sa"] < 0 \
+      and len(rec["x"].shape) > 1:
+    return "negative-scale-axis"
   if BASE[sc["cls"]] == "binary" and rec["ca"]["alpha"] == "auto_po2":
     for e in (a["mn"], a["mx"]):
       if e is not None and e["f"] == "npint" and e["e"] < 0:
@@ -728,12 +787,18 @@ def run_obj(run, tier, Q, K, tf, rng, eps32, judge):
   scs = gen(rng, tier)
   execd = []
   for sc in scs:
-    recs, final, last = execute(Q, K, tf, sc)
-    execd.append((sc, recs, final, last))
-  outs = core.run_driver("C04", [line_of(sc, recs, eps32) for sc, recs, _, _ in execd])
+    recs, final, last, op_err = execute(Q, K, tf, sc)
+    execd.append((sc, recs, final, last, op_err))
+  outs = core.run_driver("C04", [line_of(sc, recs, eps32) for sc, recs, _, _, _ in execd])
   n_calls = 0
-  for (sc, recs, final, last), o in zip(execd, outs):
+  for (sc, recs, final, last, op_err), o in zip(execd, outs):
     cls = sc["cls"]
+    if op_err is not None:
+      run.case(key=("obj-op", cls, op_err["op"], len(run.nontrivial)), nontrivial=True)
+      run.count("obj:operation-raises:" + op_err["op"])
+      run.violate("operation_raises", dict(quantizer=BASE[cls], cls=cls, op=op_err["op"], error=op_err["kind"]),
+                  {"scenario": dict(cls=cls, route=sc["route"], stream=sc["stream"]), "operation": op_err},
+                  mirrored=False)
     if "calls" not in o:
       run.disagree("obj:driver", dict(cls=cls, stream=sc["stream"]), "ok", o)
       continue
@@ -760,10 +825,11 @@ def run_obj(run, tier, Q, K, tf, rng, eps32, judge):
         run.count("obj:impl-raises:" + rec["err"])
         if not mirrored:
           run.disagree("obj:model-accepts", lab, rec["err_text"], "ok")
-        elif mo["err"] != rec["err"]:
+        elif not same_error(mo["err"], rec["err"]):
           run.disagree("obj:error-kind", lab, rec["err"], mo["err"])
         run.violate("returns_output", dict(key0, why=why_raises(sc, rec), error=rec["err"]),
-                    {"case": lab, "call": k, "error": rec["err_text"]}, mirrored=mirrored and mo.get("err") == rec["err"])
+                    {"case": lab, "call": k, "error": rec["err_text"]},
+                    mirrored=mirrored and same_error(mo.get("err"), rec["err"]))
         continue
       if "err" in mo:
         run.disagree("obj:model-rejects", lab, "ok", mo)
